@@ -37,7 +37,8 @@ def compare_views(model, iso, namespaces=None, skip_iso_if_relocated=True, count
         mv = model.view(ns)
         if ns == 'rr' and model.relocation_active():
             mv = dict(mv)
-            mv['/' + getattr(model, 'rr_moved_name', ('RR_MOVED', 'rr_moved'))[1]] = ('dir', None, None, None, False)
+            model._update_reloc()
+            mv['/' + model.reloc_name[1]] = ('dir', None, None, None, False)
         try:
             av = apiview.view(iso, ns)
         except Exception as e:
